@@ -114,6 +114,7 @@ AllItems == {
   UDerive("arity", "AB", "w1", <<"ka">>),                   \* wrong number of base units
   UDerive("wrongorder", "AB", "w2", <<"b", "ka">>),         \* units do not match the base types
   UDerive("onbase", "A", "w3", <<"a">>),                    \* derive on a base type
+  UDerive("ppkad", "MpA", "ppkad", <<"p", "ka">>),          \* p/ka derived from base-type units: can be declared BEFORE p/a
   UDerive("ppa", "MpA", "ppa", <<"p", "a">>),
   UDerive("qpa", "MpA", "qpa", <<"q", "a">>),
   OMul("m_ka_b", "ka", "b"),   OMul("m_b_ka", "b", "ka"),
